@@ -2,7 +2,7 @@
     [str_split] / [str_join] are the model of str::split / [String]::join that _স্ট্রিং-স্প্লিট (op 7) and
     _স্ট্রিং-জয়েন (op 8) apply; [type_name] is _টাইপ (op 9). *)
 From Pakhi Require Import Base Float64 Syntax Tables Lexer Interp.
-From Pakhi.Proofs Require Import SplitJoin.
+From Pakhi.Proofs Require Import SplitJoin SplitSpec.
 Local Open Scope nat_scope.
 
 Theorem C17_join_split : forall s sep, sep <> [] -> str_join (str_split s sep) sep = s.
@@ -72,3 +72,26 @@ Proof.
   repeat split; intros; try reflexivity; try (destruct v; reflexivity).
 Qed.
 Print Assumptions C17_wrong_arguments.
+
+(* what the fields ARE: in every field but the last, followed by the separator, the separator occurs only at the very end
+   (the separator that ends a field is the leftmost occurrence in what was left of the string); in the last field it does
+   not occur.  With C17_join_split this determines the split: "exactly the fields between successive separator
+   occurrences, empty fields included" *)
+Theorem C17_split_fields_are_the_text_between_leftmost_occurrences : forall s sep, sep <> [] -> fields_ok sep (str_split s sep).
+Proof. exact split_fields_ok. Qed.
+Print Assumptions C17_split_fields_are_the_text_between_leftmost_occurrences.
+
+(* the converse, for separators of any length: a non-empty list with such fields is what split returns on its join.
+   This is "join then split returns the list" with the hypothesis it needs; "no element contains the separator" alone
+   is not enough (C17_split_join_refuted, D23), and the D23 list indeed violates [fields_ok] *)
+Theorem C17_split_join_general : forall sep l, sep <> [] -> l <> [] -> fields_ok sep l -> str_split (str_join l sep) sep = l.
+Proof. exact split_join_general. Qed.
+Print Assumptions C17_split_join_general.
+
+Theorem C17_one_character_separators : forall c l, Forall (fun x => ~ In c x) l -> fields_ok [c] l.
+Proof. exact no_char_fields_ok. Qed.
+Print Assumptions C17_one_character_separators.
+
+Theorem C17_d23_list_is_not_fields_ok : ~ fields_ok [97%N; 97%N] [[97%N]; []].
+Proof. exact d23_is_not_fields_ok. Qed.
+Print Assumptions C17_d23_list_is_not_fields_ok.
